@@ -153,3 +153,28 @@ func c07Int(tag string) int64 {
 	return v
 }
 
+
+// VerifC07Issuers: a token issued by a key of every algorithm and size the
+// did package produces (identifier built as FromPubKey builds it) is rebuilt
+// with the same issuer: what can issue can be read back.
+func VerifC07Issuers() {
+	c07Install()
+	c07Now = vClockSec()
+	iss := did.VerifDIDOfSize(vChoose("issuer", 8))
+	tkn, err := New(iss, did.MustParse(c10DidB), command.Top(), nil)
+	vAssert(err == nil, "the constructor refuses an issuer of a generatable key type")
+	if err != nil {
+		return
+	}
+	_, err = tkn.toIPLD(c07Key{})
+	vAssert(err == nil && c07Captured != nil, "a token of a generatable key type cannot be sealed")
+	if err != nil || c07Captured == nil {
+		return
+	}
+	back, err := tokenFromModel(*c07Captured)
+	vReach("unsealed")
+	vAssert(err == nil, "a token issued by a generatable key type is rejected when unsealed")
+	if err == nil {
+		vAssert(back.Issuer() == iss, "the issuer changes across seal/unseal")
+	}
+}
